@@ -485,8 +485,14 @@ func (it *c11Interp) evalCall(fr *c11Frame, st *c11St, call *ast.CallExpr) []c11
 	}
 	es = append(es, call.Args...)
 	var out []c11SV
+	static := fn
 	for _, r := range it.evalN(fr, st, es, func(s *c11St, vs []*c11V) *c11V { return &c11V{k: "lit", xs: vs} }) {
 		vs := r.v.xs
+		fn := static
+		if fn == nil && len(vs) > 0 && vs[0].k == "func" && vs[0].fn.Type().(*types.Signature).Recv() == nil {
+			// a named function held in a variable, parameter or struct field: the call is the call of that function
+			fn, vs = vs[0].fn, vs[1:]
+		}
 		if fn != nil {
 			if fi := it.funcs[fn]; fi != nil && fi.Decl.Body != nil && it.inline(fn) && fr.depth < 4 && !it.onStack(fr, fn) {
 				var recv *c11V
